@@ -31,7 +31,7 @@ ASSUMPTIONS = ['solo runs use private deep copies of the data', 'NaN outputs com
                'the hash-seed clause is checked on every 40th run (fresh interpreter per seed) and by the determinism self-test']
 REAL = common.REAL_ALL
 STUBS = common.STUBS_ALL
-PROBES = ['shared_data_objects', 're_evaluate', 'bounded_future_on_short_trace', 'hashseed_leg', 'online_and_offline_cohosted',
+PROBES = ['batch_boundary_sample_resent', 'shared_data_objects', 're_evaluate', 'bounded_future_on_short_trace', 'hashseed_leg', 'online_and_offline_cohosted',
           'dense_and_discrete_cohosted']
 INTERLEAVING_MEASURE = 'distinct sequences of (object index, operation) in the schedule'
 
@@ -71,6 +71,7 @@ def gen(rng, tier):
     rng.shuffle(tokens)
     share = rng.random() < 0.7
     return {'vars': vars_, 'n': n, 'data': data, 'signals': signals, 'mons': mons, 'schedule': tokens, 'share': share,
+            'dup_boundary': rng.random() < 0.4,
             'hashseeds': [1, 2, 31337] if rng.random() < 0.025 else []}
 
 
@@ -142,6 +143,8 @@ class Host(object):
                 s = self.signals[v]
                 lo = len(s) * self.step // self.total
                 hi = len(s) * (self.step + 1) // self.total
+                if self.sc.get('dup_boundary') and self.step > 0 and lo > 0 and hi > lo:
+                    lo -= 1       # transport fault: the batch re-sends the last sample of the previous batch
                 args.append([v, s[lo:hi]])
             out = self.call(lambda *a: M.api('update', self.spec.update, *a), *args)
             self.outs.append(out)
@@ -212,6 +215,9 @@ def run(sc):
     r.sim_time += len(sc['schedule'])
     r.faults['interleave'] += sum(1 for a, b in zip(sc['schedule'], sc['schedule'][1:]) if a != b)
     r.interleavings.add(','.join('%d%s' % (j, sc['mons'][j]['kind']) for j in sc['schedule']))
+    if sc.get('dup_boundary') and any(m['kind'].startswith('ct') and m['mode'] == 'on' for m in sc['mons']):
+        r.probes['batch_boundary_sample_resent'] += 1
+        r.faults['boundary_dup'] += 1
     if sc.get('share'):
         r.probes['shared_data_objects'] += 1
         r.faults['shared_caller_data'] += 1
@@ -298,4 +304,8 @@ def shrinks(sc):
     if sc.get('share'):
         c = copy.deepcopy(sc)
         c['share'] = False
+        yield c
+    if sc.get('dup_boundary'):
+        c = copy.deepcopy(sc)
+        c['dup_boundary'] = False
         yield c
